@@ -67,6 +67,37 @@ def spec_sender_ok(filters, s):
     return (s in eff) if eff else (s not in es)
 
 
+# ----------------------------------------------------------------------------- spec: state identity
+
+def spec_identity(comp):
+    """Identity of a symbolic state at a transaction boundary (Spec/StateIdSpec.v same_identity):
+    balance term, code, storage terms per account (key words, value term) and the SET of path
+    conditions that constrain state variables (those at the positions of the slice)."""
+    sl = set(comp["sliced"] or ())
+    cons = frozenset(c for i, c in enumerate(comp["conds"]) if i in sl)
+    stor = tuple((a, tuple((tuple(k) if isinstance(k, list) else (k,), v) for k, v in items)) for a, items in comp["storage"])
+    return (comp["balance"], tuple(map(tuple, comp["code"])), stor, cons)
+
+
+def enc_components(comp):
+    """encoding for the extracted entry point c15_state_classes (see Extract/ExC15.v parse_xstate)"""
+    out = [comp["balance"], len(comp["code"])]
+    for a, c in comp["code"]:
+        out += [a, c]
+    out.append(len(comp["storage"]))
+    for a, items in comp["storage"]:
+        out += [a, len(items)]
+        for k, v in items:
+            out += ([1, len(k)] + list(k)) if isinstance(k, list) else [0, k]
+            out.append(v)
+    out += [len(comp["conds"])] + list(comp["conds"])
+    if comp["sliced"] is None:
+        out += [0, 0]
+    else:
+        out += [1, len(comp["sliced"])] + list(comp["sliced"])
+    return out
+
+
 # ----------------------------------------------------------------------------- reference-side execution
 
 def world_key(accounts, block):
